@@ -18,7 +18,7 @@ import os
 FEATS = ("const", "setc", "tup", "dflt", "kwd", "lam")
 
 
-def gen_prog(rng, nm=None, nh=None, nv=None, cyc_rate=0.15, hidden_rate=0.08, aux_rate=0.3, explicit_rate=0.15, chain_rate=0.6):
+def gen_prog(rng, nm=None, nh=None, nv=None, cyc_rate=0.15, hidden_rate=0.08, aux_rate=0.3, explicit_rate=0.15, chain_rate=0.6, lambda_rate=0.25):
     nm = nm or rng.randint(2, 4)
     nh = rng.randint(0, 3) if nh is None else nh
     nv = rng.randint(0, 3) if nv is None else nv
@@ -68,6 +68,10 @@ def gen_prog(rng, nm=None, nh=None, nv=None, cyc_rate=0.15, hidden_rate=0.08, au
             later = [x for x in fn_names[i:] if x[0] == "m" and (d["where"] == "mod" or defs[x]["where"] == "aux")]
             if later:
                 d["refs"].append([rng.choice(later), "bare"])
+        if d["kind"] == "plain" and not d.get("wrapped") and rng.random() < lambda_rate:
+            # an anonymous helper bound to a module-level name: `h1 = lambda x: [...]` (all lambdas share one __qualname__)
+            d["aslambda"] = True
+            d.update(setc=None, tup=None, dflt=None, kwd=None, lam=None)
     return dict(defs=defs, order=names)
 
 
@@ -88,6 +92,8 @@ def edits(rng, prog, n=1):
             log.append(["var", name])
             continue
         kind = rng.choice(["const", "setc", "tup", "dflt", "kwd", "lam", "ref+", "ref-", "explicit"])
+        if d.get("aslambda") and kind in ("setc", "tup", "dflt", "kwd", "lam"):
+            kind = "const"                # a lambda helper renders its constant and references only
         if kind == "const":
             d["const"] += 1
         elif kind == "setc":
@@ -171,6 +177,8 @@ def render_def(name, d, prog, pkg):
     """source text of one definition (as it appears in its module)"""
     if d["kind"] == "var":
         return "%s = %s\n" % (name, _lit(d["value"]))
+    if d.get("aslambda"):
+        return render_lambda(name, d, prog)
     params = "x"
     if d["dflt"] is not None:
         params += ", y=%d" % d["dflt"]
@@ -228,6 +236,32 @@ def render_def(name, d, prog, pkg):
                 L.append("    r.append(%s(x - 1) if x > 0 else None)" % expr)
     L.append("    return r")
     return "\n".join(L) + "\n"
+
+
+def render_lambda(name, d, prog):
+    """`name = lambda x: [const, ref, ...]` - only the constant and the references of the definition are rendered"""
+    items = [str(d["const"])]
+    for t, form in d["refs"]:
+        td = prog["defs"].get(t)
+        here = d["where"]
+        if td is None:
+            expr = t
+        elif td["where"] == here:
+            expr = ("a_" + t) if form == "alias" else t
+        else:
+            expr = ("aux." if td["where"] == "aux" else "mod.") + t
+        if td is None or td["kind"] == "var":
+            if td is None or t in prog.get("late", []):
+                items.append("(%s if %r in globals() else None)" % (t, t))
+            else:
+                items.append(expr)
+        elif form == "hidden":
+            items.append("(globals()[%r](x - 1) if x > 0 else None)" % t)
+        elif "." in expr:
+            items.append("(lambda _t: _t(x - 1) if x > 0 else None)(%s)" % expr)
+        else:
+            items.append("(%s(x - 1) if x > 0 else None)" % expr)
+    return "%s = lambda x: [%s]\n" % (name, ", ".join(items))
 
 
 HEADER_MOD = '''from twosigma.memento import memento_function
